@@ -17,6 +17,9 @@ theorem prefixOk : prefixCheck Gen.L6.lang = true := by decide +kernel
 /-- an empty token is not recognised -/
 theorem emptyTok : findWord Gen.L6.lang [] = none := by decide +kernel
 
+/-- an all-ASCII, non-composing language with a plain space as separator -/
+theorem asciiOk : asciiCheck Gen.L6.lang = true := by decide +kernel
+
 theorem ok : TableOK Gen.L6.lang := tableOK_of_check _ check
 
 end Polyseed.Tables.T6
